@@ -834,5 +834,5 @@ def repo_grammar_seeds():
 
 
 HANDLERS["C11"] = with_fuzz(HANDLERS["C11"], "fz_pretty", "C11", 3000000, 400, lambda: [b"\x00\x00\x00a\nb", b"\xff\xff\x01\xc3\xa9\r\n\n", b"\x80\x00\x02"])
-HANDLERS["C12"] = with_fuzz(HANDLERS["C12"], "fz_frontend", "C12", 300000, 900)
+HANDLERS["C12"] = with_fuzz(HANDLERS["C12"], "fz_frontend", "C12", 150000, 900)
 HANDLERS["C15"] = with_fuzz(HANDLERS["C15"], "fz_total", "C15", 400000, 1200, repo_grammar_seeds, GRAMMAR_TOKENS)
